@@ -53,24 +53,25 @@ Definition with_fullx (e : aedge) (fx : Z) : aedge :=
 (* ActiveEdge::step *)
 Definition step (e : aedge) (cury : Z) : aedge :=
   if e_shift e =? 0 then with_fullx e (e_fullx e + e_slope e) else
-  let e :=
-    if dot16_to_dot2 (e_nexty e) <=? cury then
-      let e := mk_aedge (e_x2 e) (e_y2 e) (e_slope e) (e_nextx e) (e_nextx e) (e_nexty e)
-                 (e_dx e) (e_ddx e) (e_dy e) (e_ddy e) (e_nextx e) (e_nexty e)
-                 (e_shift e) (e_count e) (e_wind e) (e_err e) in
-      let e := set_next_to_end (curve_advance 64 cury e) in
-      if cury + 1 <? e_y2 e then
-        match div_fixed16_fixed16 (e_nextx e - e_oldx e) (e_nexty e - e_oldy e) with
-        | Some q =>
-            mk_aedge (e_x2 e) (e_y2 e) (Z.shiftr q 2) (e_fullx e) (e_nextx e) (e_nexty e)
-              (e_dx e) (e_ddx e) (e_dy e) (e_ddy e) (e_oldx e) (e_oldy e) (e_shift e) (e_count e) (e_wind e) (e_err e)
-        | None =>
-            mk_aedge (e_x2 e) (e_y2 e) (e_slope e) (e_fullx e) (e_nextx e) (e_nexty e)
-              (e_dx e) (e_ddx e) (e_dy e) (e_ddy e) (e_oldx e) (e_oldy e) (e_shift e) (e_count e) (e_wind e) true
-        end
-      else e
-    else e in
-  with_fullx e (e_fullx e + e_slope e).
+  if dot16_to_dot2 (e_nexty e) <=? cury then
+    let e := mk_aedge (e_x2 e) (e_y2 e) (e_slope e) (e_nextx e) (e_nextx e) (e_nexty e)
+               (e_dx e) (e_ddx e) (e_dy e) (e_ddy e) (e_nextx e) (e_nexty e)
+               (e_shift e) (e_count e) (e_wind e) (e_err e) in
+    let e := set_next_to_end (curve_advance 64 cury e) in
+    if cury + 1 <? e_y2 e then
+      match div_fixed16_fixed16 (e_nextx e - e_oldx e) (e_nexty e - e_oldy e) with
+      | Some q =>
+          (* the new segment starts at old_y, part of the way through this sample row: advance by the rest of the row *)
+          let slope := Z.shiftr q 2 in
+          let rest := dot2_to_dot16 (cury + 1) - e_oldy e in
+          mk_aedge (e_x2 e) (e_y2 e) slope (e_fullx e + Z.shiftr (slope * rest) 14) (e_nextx e) (e_nexty e)
+            (e_dx e) (e_ddx e) (e_dy e) (e_ddy e) (e_oldx e) (e_oldy e) (e_shift e) (e_count e) (e_wind e) (e_err e)
+      | None =>
+          mk_aedge (e_x2 e) (e_y2 e) (e_slope e) (e_fullx e + e_slope e) (e_nextx e) (e_nexty e)
+            (e_dx e) (e_ddx e) (e_dy e) (e_ddy e) (e_oldx e) (e_oldy e) (e_shift e) (e_count e) (e_wind e) true
+      end
+    else with_fullx e (e_fullx e + e_slope e)
+  else with_fullx e (e_fullx e + e_slope e).
 
 (* step while cury < 0 (edges starting above the surface) *)
 Fixpoint prestep (n : nat) (e : aedge) (cury : Z) : aedge * Z :=
